@@ -191,7 +191,8 @@ func Unmarshal(codec string, desc protoreflect.MessageDescriptor, data []byte) (
 	case "proto":
 		return msg, proto.UnmarshalOptions{Resolver: resolverFor(msg)}.Unmarshal(data, msg)
 	case "json":
-		return msg, protojson.UnmarshalOptions{Resolver: resolverFor(msg)}.Unmarshal(data, msg)
+		// unknown JSON fields are tolerated (the specs leave this open; vanguard's codec discards them)
+		return msg, protojson.UnmarshalOptions{Resolver: resolverFor(msg), DiscardUnknown: true}.Unmarshal(data, msg)
 	case "alt":
 		if len(data) < 1 || data[0] != AltPrefix {
 			return nil, errors.New("alt: missing prefix")
@@ -1137,9 +1138,9 @@ func parseGRPCStatus(h http.Header, cs *complaints, where string) (End, bool) {
 		}
 	}
 	e.Message = GRPCPercentDecode(msg)
-	if !utf8.ValidString(e.Message) {
-		cs.add(where+".grpc-message.utf8", "decoded grpc-message is not UTF-8")
-	}
+	// (a grpc-message that does not decode to UTF-8 is tolerated: the gRPC document obliges
+	// decoders not to fail on it)
+	_ = utf8.ValidString
 	if bin := h.Get("Grpc-Status-Details-Bin"); bin != "" {
 		raw, err := decodeB64Any(bin)
 		var st statuspb.Status
@@ -1370,6 +1371,10 @@ func ParseClientResponse(form Form, status int, h http.Header, body []byte, trai
 			envelopedBody("application/grpc", "application/grpc+", 0, 1)
 			trEnd, trHas := parseGRPCStatus(trailers, &cs, "resp.trailers")
 			switch {
+			case headHas && trHas && headEnd.Code == trEnd.Code && headEnd.CodeStr == trEnd.CodeStr && headEnd.Message == trEnd.Message:
+				// net/http repeats a declared trailer key that is also present as a header;
+				// an identical repetition is one disposition, not two.
+				r.EndSeen, r.End = 1, trEnd
 			case headHas && trHas:
 				cs.add("resp.multiple-ends", "grpc-status in both headers (%d) and trailers (%d)", headEnd.Code, trEnd.Code)
 				r.EndSeen = 2
